@@ -273,7 +273,7 @@ def obligations(tier):
     kw = 2 if q else 3
     for k in range(1, kp + 1):
         for slow in (False, True):
-            if slow and k > (2 if q else 3):
+            if slow and k > 3:
                 continue
             nsym = k + 1 + (k + 1 if slow else 0)
             if k <= kw and not (slow and k > (1 if q else 2)):
@@ -282,8 +282,12 @@ def obligations(tier):
             for n in (1, 2, 3):
                 if n > k + 1:
                     continue
-                add("partition/n=%d/k=%d/%s" % (n, k, "slow" if slow else "instant"),
-                    {"kind": "partition", "k": k, "slow": slow, "n": n}, nsym, k)
+                if slow and k == 3 and q:
+                    continue      # (3 arrivals into a slow consumer: thorough tier; quick covers it by C02 schedules)
+                sh = {"kind": "partition", "k": k, "slow": slow, "n": n}
+                if slow and k == 3 and q:
+                    sh.update({"gmax": 2, "imax": 2, "dmax": 2})
+                add("partition/n=%d/k=%d/%s" % (n, k, "slow" if slow else "instant"), sh, nsym, k)
         if k <= (2 if q else 3):
             for n in (1, 2):
                 add("partition-keys/n=%d/k=%d" % (n, k),
